@@ -37,15 +37,82 @@ fn run_one(text: &str) -> Option<String> {
     }
 }
 
+/// include graphs: (name, files, must be accepted)
+fn include_scenarios() -> Vec<(&'static str, Vec<(&'static str, &'static str)>, bool)> {
+    let txn = "2024/01/01 x\n    A  1 JPY\n    B\n\n";
+    vec![
+        ("a file that includes itself", vec![("/main.ledger", "include main.ledger\n")], false),
+        ("two files that include each other", vec![("/main.ledger", "include b.ledger\n"), ("/b.ledger", "2024/01/01 x\n    A  1 JPY\n    B\n\ninclude main.ledger\n")], false),
+        ("a cycle through a sub-directory and `..`", vec![("/main.ledger", "include sub/c.ledger\n"), ("/sub/c.ledger", "include ../main.ledger\n")], false),
+        ("the same file included twice (no cycle)", vec![("/main.ledger", "include b.ledger\ninclude b.ledger\n"), ("/b.ledger", txn)], true),
+        ("a diamond (no cycle)", vec![("/main.ledger", "include b.ledger\ninclude c.ledger\n"), ("/b.ledger", "include d.ledger\n"), ("/c.ledger", "include d.ledger\n"), ("/d.ledger", txn)], true),
+    ]
+}
+
+/// child mode: load one include graph; a stack overflow kills this process (it cannot be caught), which the parent observes
+fn include_child(idx: usize) -> i32 {
+    let (_, files, _) = include_scenarios().into_iter().nth(idx).expect("scenario");
+    let arena = Bump::new();
+    let mut ctx = report::ReportContext::new(&arena);
+    let mut fs: HashMap<PathBuf, Vec<u8>> = HashMap::new();
+    for (p, c) in files {
+        fs.insert(PathBuf::from(p), c.as_bytes().to_vec());
+    }
+    let loader = load::Loader::new(PathBuf::from("/main.ledger"), load::FakeFileSystem::from(fs));
+    let rc = match report::process(&mut ctx, loader, &report::ProcessOptions::default()) {
+        Ok(_) => { println!("accepted"); 0 }
+        Err(e) => { println!("rejected: {}", format!("{}", e).lines().next().unwrap_or("")); 3 }
+    };
+    rc
+}
+
+fn include_sweep(bad: &mut Vec<(String, String)>) -> usize {
+    let exe = match std::env::current_exe() { Ok(e) => e, Err(_) => return 0 };
+    let mut n = 0;
+    for (i, (name, files, ok)) in include_scenarios().into_iter().enumerate() {
+        n += 1;
+        let desc = format!("{}: {}", name, files.iter().map(|(p, c)| format!("{} = {:?}", p, c)).collect::<Vec<_>>().join("; "));
+        let mut child = match std::process::Command::new(&exe).args(["c06", "--include-child", &i.to_string()]).stdout(std::process::Stdio::null()).stderr(std::process::Stdio::null()).spawn() {
+            Ok(c) => c,
+            Err(_) => continue,
+        };
+        let start = std::time::Instant::now();
+        let status = loop {
+            match child.try_wait() {
+                Ok(Some(st)) => break Some(st),
+                Ok(None) if start.elapsed() > Duration::from_secs(20) => { let _ = child.kill(); let _ = child.wait(); break None; }
+                Ok(None) => std::thread::sleep(Duration::from_millis(20)),
+                Err(_) => break None,
+            }
+        };
+        match status {
+            None => bad.push((desc, "loading did not terminate within 20 s".into())),
+            Some(st) => match st.code() {
+                Some(0) if ok => {}
+                Some(3) if !ok => {}
+                Some(0) => bad.push((desc, "an include cycle was accepted".into())),
+                Some(3) => bad.push((desc, "a ledger without an include cycle was rejected".into())),
+                Some(c) => bad.push((desc, format!("loader process exited with status {}", c))),
+                None => bad.push((desc, "the process was killed by a signal while loading (stack overflow / abort): no diagnostic".into())),
+            },
+        }
+    }
+    n
+}
+
 pub fn run(args: &[String]) -> i32 {
+    if args.first().map(|x| x == "--include-child").unwrap_or(false) {
+        return include_child(args.get(1).and_then(|x| x.parse().ok()).unwrap_or(0));
+    }
     let thorough = args.first().map(|x| x == "thorough").unwrap_or(false);
     let mut inputs: Vec<String> = Vec::new();
     if args.first().map(|x| x == "--only").unwrap_or(false) {
         inputs.push(args.get(1).cloned().unwrap_or_default());
     } else {
         let mut samples: Vec<String> = vec![include_str!("../data/sample.ledger").to_owned()];
-        for p in ["/repo/testdata/report/multi_commodity.ledger", "/repo/testdata/report/single_commodity.ledger"] {
-            if let Ok(s) = std::fs::read_to_string(p) {
+        let repo = std::env::var("VERIF_REPO").unwrap_or_else(|_| "/repo".to_owned());
+        for p in ["testdata/report/multi_commodity.ledger", "testdata/report/single_commodity.ledger"] {
+            if let Ok(s) = std::fs::read_to_string(format!("{}/{}", repo, p)) {
                 samples.push(s);
             }
         }
@@ -108,6 +175,10 @@ pub fn run(args: &[String]) -> i32 {
                 break;
             }
         }
+    }
+    // include graphs, each loaded in a child process (a stack overflow cannot be caught in-process)
+    if !args.first().map(|x| x == "--only").unwrap_or(false) {
+        done += include_sweep(&mut bad);
     }
     // small ledgers of every posting shape through book-keeping: only crashes count here
     let (n2, bad2) = crate::ledger::sweep(thorough, true);
